@@ -191,7 +191,7 @@ package nbio
 //@   note teardown runs user callbacks (OnClose): they reach connection state only through its methods, and no method clears the closed flag
 
 //@ func (*Conn).Write
-//@   props C01 C17
+//@   props C01 C17 C04
 //@   safety index slice nil div assert panic make lock lockset
 //@   requires Wired(c) && isStream(c) && !holds(c.mux)
 //@   ensures ret: result1 == nil ==> result0 == len(b)                                     // prop C01
@@ -268,7 +268,7 @@ package nbio
 //@     decreases v.remain
 
 //@ func (*Conn).flush
-//@   props C01 C17 C11
+//@   props C01 C17 C11 C04
 //@   safety index slice nil div assert panic make lock lockset
 //@   requires Wired(c) && isStream(c) && !holds(c.mux)
 //@   ensures unlocked: !holds(c.mux)                                                      // prop C01
@@ -281,7 +281,7 @@ package nbio
 //@     invariant ArmInv(c) && kMods[c.fd] == c.gMods0 && (c.gSawQ ==> kEv[c.fd] >= 0 && c.isWAdded)
 
 //@ func (*Conn).Writev
-//@   props C01 C17
+//@   props C01 C17 C04
 //@   safety index slice nil div assert panic make lock lockset
 //@   requires Wired(c) && isStream(c) && !holds(c.mux)
 //@   ensures ret: result1 == nil ==> result0 == total(in)                                  // prop C01
@@ -295,7 +295,7 @@ package nbio
 //@ ghost Conn.gMods0 : Int
 //@ ghost Conn.gSawQ : Bool
 //@ func (*Conn).Sendfile
-//@   props C01 C17
+//@   props C01 C17 C04
 //@   safety index slice nil div assert panic make lock lockset
 //@   requires Wired(c) && isStream(c) && !holds(c.mux)
 //@   ensures ret: result1 == nil && f != nil ==> result0 == c.gAcc - c.gSnap               // prop C01
